@@ -815,6 +815,8 @@ def twin_update(args):
         L.mf['Manifest'].append({'tag': 'DIST', 'path': 'd.tar', 'size': 1, 'ck': {}})
         if rng.random() < 0.3:
             L.mf['Manifest'].append({'tag': 'IGNORE', 'path': 'other/junk'})
+        if rng.random() < 0.6:
+            L.mf['Manifest'].append({'tag': 'TIMESTAMP', 'path': '', 'size': 0, 'ck': {}, 'ts': '2017-01-01T01:01:01Z'})
         L.write(root)
         edits = []
         cands = [sub + '/' + t for t in twins] + [sub + '/data', sub + '/old.txt'] + \
@@ -832,7 +834,9 @@ def twin_update(args):
         opts = {'hashes': hs if rng.random() < 0.8 else rng.choice(HASHSETS), 'sub': rng.choice([sub, sub, '']),
                 'sort': rng.choice([None, True, False]), 'force': False, 'wm': None, 'fmt': None, 'profile': 'default'}
         namer = fm.Namer()
-        return run_history(root, L, rng, namer, opts, {'seed': seed, 'idx': idx, 'twin': twins, 'edits': edits, 'prior': []})
+        # through the command line half of the time (a sub-directory update must leave the TIMESTAMP alone)
+        return run_history(root, L, rng, namer, opts, {'seed': seed, 'idx': idx, 'twin': twins, 'edits': edits, 'prior': []},
+                           cli=(opts['sort'] is None and rng.random() < 0.5))
     finally:
         shutil.rmtree(root, ignore_errors=True)
 
